@@ -43,6 +43,8 @@ func (c *Ctx) runBackendWalk(r *Report, b backendSpec) {
 
 const indexLenClause = "indexable length (E13): every type switch that maps array -> Size, vector -> Size and has a matrix arm (the number of elements a dynamic index may address, which the bounds-check policies clamp against) reads Columns - never Rows - in its matrix arm"
 
+const guardAgreeClause = "guard agreement (E14): a variable assigned at several sites of one function, each directly under an `== <enum constant>` test (the recorded name of the local_invocation_id / vertex_index / instance_index parameter for direct builtin arguments and for builtin struct members), is assigned under the same constant at every site"
+
 const orderClause = "operand order (E12): wherever a value derived only from the left operand of a binary expression (.Left of a node that has both fields, or the first of the two operand parameters of a function that also takes the operator) and one derived only from the right operand are handed on together - two arguments of a call, two elements of a positional literal, the Left/Right fields of a keyed literal, two consecutive text emissions - the left-derived one comes first; the sites that mirror the operands on purpose (HLSL mul, OpMatrixTimesScalar / OpVectorTimesScalar with a scalar on the left) are counted and must stay mirrored"
 
 var orderFloors = map[string]int{"hlsl": 6, "msl": 7, "glsl": 25, "spirv": 15, "wgsl": 9, "ir": 5}
@@ -62,6 +64,11 @@ func backendProp(b backendSpec, meaning string) propFunc {
 		r.Clauses = append(r.Clauses, orderClause)
 		c.runOperandOrder(r, "order."+b.Name, inPkgs(b.Name))
 		r.floor("order."+b.Name, orderFloors[b.Name])
+		if b.Name == "msl" {
+			r.Clauses = append(r.Clauses, guardAgreeClause)
+			c.runGuardAgree(r, "guard.agree", inPkgs("msl"))
+			r.floor("guard.agree", 3)
+		}
 		if b.Name == "hlsl" || b.Name == "msl" {
 			r.Clauses = append(r.Clauses, indexLenClause)
 			c.runIndexLen(r, "shape.indexlen", inPkgs(b.Name))
